@@ -70,6 +70,11 @@ def cases(tier):
                             office="Y", unit_type="county-district",
                             aggregates=["postal_code", "district", "county_fips", "unit"], cut_calibration=True,
                             weight=nrep + 8))
+        # district election where 'district' itself is not among the requested aggregates
+        us = P.standard_units(nrep, 2, [district_extra(EXTRA["unexp_known"](0)), district_extra(EXTRA["unexp_new"](1))], district=True)
+        out.append(dict(name="%s_unexp_Y_nodistrict" % pi[:2], pi=pi, alphas=alphas, estimands=["turnout"], units=us, office="Y",
+                        unit_type="county-district", aggregates=["postal_code", "county_fips", "unit"], cut_calibration=True,
+                        weight=nrep + 8))
         out.append(dict(name="%s_two_estimands" % pi[:2], pi=pi, alphas=alphas, estimands=["dem", "turnout"],
                         units=P.standard_units(nrep, 1, [EXTRA["unexp_new"](0), EXTRA["block"](1)], cls=True),
                         aggregates=["postal_code", "county_fips", "unit"], cut_calibration=True, weight=nrep + 10))
